@@ -7,24 +7,19 @@ import Pyc.Model.PackFit
 decides and the two numbers it compares: `{"overflow", "len", "coin"}`;
 `pfit.vlen {value}` → `{"len", "coin_len", "bundle_len"}` of `Value.to_cbor()`;
 `pfit.pack {p, addr, change}` → the chunks of `_pack_tokens_for_change`, the `break` flag, `noSingleOver`, the number of
-`(policy, name)` pairs, and per chunk the coin / size the code measured it with (first chunk under the change coin, later
-ones under 0) and its size with its own minimum ADA;
+`(policy, name)` pairs, and per chunk the coin / size the code measured it with (under the change coin) and its size with its own minimum ADA;
 `pfit.change {p, …builder.change arguments}` → outputs of `_calc_change` with the size of each value, `noSingleOver` of
 the change value and `allFit`. -/
 
 namespace Pyc.Driver
 open Lean Pyc Pyc.Builder Pyc.PackFit
 
-def pfChunk (p : Params) (addr : Bytes) (c0 : Int) (i : Nat) (m : MultiAsset) : Json :=
+def pfChunk (p : Params) (addr : Bytes) (c0 : Int) (m : MultiAsset) : Json :=
   Json.mkObj [("ma", ofMultiAsset m),
-    ("probe_coin", ofInt (probeCoin p addr (coinAt c0 i) m)),
-    ("probe_len", ofNat (probeLen p addr (coinAt c0 i) m)),
+    ("probe_coin", ofInt (probeCoin p addr c0 m)),
+    ("probe_len", ofNat (probeLen p addr c0 m)),
     ("own_coin", ofInt (minAda p addr ⟨0, m⟩)),
     ("own_len", ofNat (vlen ⟨minAda p addr ⟨0, m⟩, m⟩))]
-
-def pfChunks (p : Params) (addr : Bytes) (c0 : Int) : Nat → List MultiAsset → List Json
-  | _, [] => []
-  | i, m :: r => pfChunk p addr c0 i m :: pfChunks p addr c0 (i + 1) r
 
 def handlePackFit (op : String) (j : Json) : R Json := do
   match op with
@@ -49,7 +44,7 @@ def handlePackFit (op : String) (j : Json) : R Json := do
     let r := packTokens p addr ch
     pure (Json.mkObj [("arr", ofList ofMultiAsset r.1), ("break", Json.bool r.2),
       ("no_single_over", Json.bool (noSingleOver p addr ch)), ("pairs", ofNat (pairCount ch.ma)),
-      ("chunks", Json.arr (pfChunks p addr ch.coin 0 r.1).toArray)])
+      ("chunks", Json.arr (r.1.map (pfChunk p addr ch.coin)).toArray)])
   | "pfit.change" =>
     let p ← bldParams (← j.getObjVal? "p")
     let a ← bldArgs p j
